@@ -21,6 +21,7 @@ def opOfJson (j : Json) : Except String Op := do
   | "newSession" => pure .newSession
   | "delSession" => pure (.delSession (← getNat j "s"))
   | "openStream" => pure (.openStream (← getNat j "s"))
+  | "breakStream" => pure (.breakStream (← getNat j "s"))
   | "closeStream" => pure (.closeStream (← getNat j "s"))
   | "send" => pure (.send (← getNat j "s") (← getNat j "m"))
   | "broadcast" => pure (.broadcast (← getNat j "m"))
@@ -40,7 +41,7 @@ def dopOfJson (j : Json) : Except String DOp := do
   | _ => pure (.op (← opOfJson j))
 
 def errStr : Err → String
-  | .stateless => "stateless" | .noStream => "noStream" | .notFound => "notFound" | .notInitialized => "notInitialized"
+  | .stateless => "stateless" | .noStream => "noStream" | .writeFailed => "writeFailed" | .notFound => "notFound" | .notInitialized => "notInitialized"
   | .allFailed => "allFailed" | .unsupported => "unsupported" | .disabled => "disabled"
 
 def retStr : Ret → String
